@@ -134,6 +134,7 @@ class Run:
         self.inprog: dict[Any, OpRec] = {}
         self.exited_scopes: list[tuple[Any, str, int]] = []
         self.pending_start: dict[Any, Any] = {}  # child tid -> starter tid
+        self.deferred_routed: dict[Any, Any] = {}  # start() child -> gid, see judge_group_exit
         self.agent_timers: list = []
         self.in_aexit: dict[Any, Any] = {}  # gid -> host tid, while the host is in __aexit__
         self.node_task: dict[str, Any] = {}  # handle node sid -> task id
@@ -1169,11 +1170,26 @@ class Run:
             self.pending_start.pop(child, None)
             self.ev(tid, "start-raised", child, type(e).__name__)
             self.judge_start_raised(tid, gid, child, e, g_cancelled_before, rec.seq)
+            if self.deferred_routed.pop(child, None) is not None:
+                lost = [x for x in flatten(info["final"])
+                        if not isinstance(x, asyncio.CancelledError) and x is not e]  # fmt: skip
+                if lost:
+                    self.V("C07", "start-child-error-discarded",
+                           {"gid": gid, "child": child, "lost": [repr(x) for x in lost],
+                            "start_raised": repr(e)})  # fmt: skip
+
             raise
         else:
             self.inprog.pop(tid, None)
             self.pending_start.pop(child, None)
             self.ev(tid, "start-returned", child)
+            if self.deferred_routed.pop(child, None) is not None:
+                lost = [x for x in flatten(info["final"]) if not isinstance(x, asyncio.CancelledError)]
+                if lost:
+                    self.V("C07", "start-child-error-discarded",
+                           {"gid": gid, "child": child, "lost": [repr(x) for x in lost],
+                            "start_raised": None})  # fmt: skip
+
             if want_handle:
                 self.handles[child] = res
                 try:
@@ -1213,8 +1229,14 @@ class Run:
             childs = info["final"]
             if isinstance(childs, asyncio.CancelledError) and info["started_called"] is None:
                 # the child ended (cancelled) before calling started(): start() raises the
-                # child's exception, which here is a cancellation exception
+                # child's exception, which here is a cancellation exception -- the child's
+                # own object, unless the caller has a cancellation of its own to raise
                 self.window("start_raised_childs_cancellation")
+                if e is not childs and not eff and not (
+                    self.sh.last_eff.get(tid) and self.sh.last_eff[tid][0] >= call_seq
+                ):
+                    self.V("C07", "start-raised-foreign-exception",
+                           {"child": child, "exc": repr(e), "child_exc": repr(childs)})  # fmt: skip
             elif not eff and self.sh.last_eff.get(tid) and self.sh.last_eff[tid][0] >= call_seq:
                 # start() re-raises the caller's cancellation only after the child has
                 # terminated, possibly long after it was delivered
@@ -1366,6 +1388,15 @@ class Run:
             if m in g["start_routed"]:
                 continue
 
+            if m in self.pending_start and self.tinfo[m]["ended"] is not None:
+                # the child of a start() whose caller (a task outside this group) has not
+                # resumed yet: its exception is still on its way to that caller -- judged
+                # when start() raises there
+                g["start_routed"].add(m)
+                self.deferred_routed[m] = gid
+                self.window("start_error_routed_after_group_exit")
+                continue
+
             for x in flatten(self.tinfo[m]["final"]):
                 if not isinstance(x, asyncio.CancelledError):
                     expected.append(x)
@@ -1491,11 +1522,16 @@ def execute(program: dict) -> dict:
     except BaseExceptionGroup as e:
         r.aborted = None
         r.V("C02", "exception-escaped-program", {"exc": repr(e)[:300]})
+    except asyncio.CancelledError as e:
+        # nobody cancels the root task from outside: a cancellation exception leaving the
+        # program was invented, or not absorbed by the scope that caused it
+        r.aborted = None
+        r.V("ALL", "cancellation-escaped-program", {"exc": repr(e)[:300]})
     except Exception as e:  # noqa: BLE001
         r.aborted = None
         import traceback
 
-        r.V("C00", "harness-or-library-crash", {"exc": repr(e), "tb": traceback.format_exc()[-1500:]})
+        r.V("ALL", "harness-or-library-crash", {"exc": repr(e), "tb": traceback.format_exc()[-1500:]})
 
     if info.get("callback_errors") and not r.snap:
         r.viol.append(("C00", "exception-in-loop-callback", info["callback_errors"][:3]))
